@@ -25,6 +25,7 @@ theorem bitfield_sound (sf : BitVec 32) (opc : BitVec 32) (n : BitVec 32) (immr 
     immr.ult 64#32 = true ∧
     w.extractLsb' 16 6 = BitVec.setWidth 6 immr ∧
     imms.ult 64#32 = true ∧
+    (sf = 0#32 → immr.ult 32#32 = true ∧ imms.ult 32#32 = true) ∧
     w.extractLsb' 10 6 = BitVec.setWidth 6 imms ∧
     rn.v.ule 30#8 = true ∧
     w.extractLsb' 5 5 = BitVec.setWidth 5 rn.v ∧
@@ -33,7 +34,7 @@ theorem bitfield_sound (sf : BitVec 32) (opc : BitVec 32) (n : BitVec 32) (immr 
     w &&& 528482304#32 = 318767104#32 := by
   unfold cls.bitfield at h
   cls_norm at h
-  bv_decide
+  bv_decide (timeout := 600)
 
 example : ∃ w, cls.bitfield 0#32 0#32 0#32 0#32 0#32 R17 R17 = .ok w := ⟨_, rfl⟩
 
@@ -54,7 +55,7 @@ theorem cmp_branch_imm_sound (sf : BitVec 32) (op : BitVec 32) (rt : Register) (
     w &&& 2113929216#32 = 872415232#32 := by
   unfold cls.cmp_branch_imm at h
   cls_norm at h
-  bv_decide
+  bv_decide (timeout := 600)
 
 example : ∃ w, cls.cmp_branch_imm 0#32 0#32 R17 4294967295#32 = .ok w := ⟨_, rfl⟩
 
@@ -78,7 +79,7 @@ theorem dataproc2_sound (sf : BitVec 32) (s : BitVec 32) (rm : Register) (opcode
     w &&& 1608515584#32 = 448790528#32 := by
   unfold cls.dataproc2 at h
   cls_norm at h
-  bv_decide
+  bv_decide (timeout := 600)
 
 example : ∃ w, cls.dataproc2 0#32 0#32 R17 0#32 R17 R17 = .ok w := ⟨_, rfl⟩
 
@@ -100,7 +101,7 @@ theorem fp_compare_sound (m : BitVec 32) (s : BitVec 32) (ty : BitVec 32) (rm : 
     w &&& 4288691200#32 = 505421824#32 := by
   unfold cls.fp_compare at h
   cls_norm at h
-  bv_decide
+  bv_decide (timeout := 600)
 
 example : ∃ w, cls.fp_compare 0#32 0#32 0#32 F31 0#32 F31 0#32 = .ok w := ⟨_, rfl⟩
 
@@ -127,7 +128,7 @@ theorem ldst_pair_sound (opc : BitVec 32) (v : BitVec 32) (l : BitVec 32) (imm7 
     w &&& 1065353216#32 = 687865856#32 := by
   unfold cls.ldst_pair at h
   cls_norm at h
-  bv_decide
+  bv_decide (timeout := 600)
 
 example : ∃ w, cls.ldst_pair 0#32 0#32 0#32 4294967295#32 R17 R17 R17 = .ok w := ⟨_, rfl⟩
 
@@ -154,7 +155,7 @@ theorem ldst_regoffset_sound (size : BitVec 32) (v : BitVec 32) (opc : BitVec 32
     w &&& 991955968#32 = 941623296#32 := by
   unfold cls.ldst_regoffset at h
   cls_norm at h
-  cases option <;> simp only [Extend.ldst_encoding, bind_ok, pure_ok, ok_ok, ex_elim, ex_elim', ex_elim_r, throw, throwThe, MonadExceptOf.throw, reduceCtorEq, false_and, exists_false, and_false] at h ⊢ <;> bv_decide
+  cases option <;> simp only [Extend.ldst_encoding, bind_ok, pure_ok, ok_ok, ex_elim, ex_elim', ex_elim_r, throw, throwThe, MonadExceptOf.throw, reduceCtorEq, false_and, exists_false, and_false] at h ⊢ <;> bv_decide (timeout := 600)
 
 example : ∃ w, cls.ldst_regoffset 0#32 0#32 0#32 R17 Extend.SXTW 0#32 R17 0#32 = .ok w := ⟨_, rfl⟩
 
@@ -182,7 +183,7 @@ theorem logical_shreg_sound (sf : BitVec 32) (opc : BitVec 32) (shift : Shift) (
     w &&& 520093696#32 = 167772160#32 := by
   unfold cls.logical_shreg at h
   cls_norm at h
-  cases shift <;> simp only [Shift.u32, bind_ok, pure_ok, ok_ok, ex_elim, ex_elim', ex_elim_r, throw, throwThe, MonadExceptOf.throw, reduceCtorEq, false_and, exists_false, and_false] at h ⊢ <;> bv_decide
+  cases shift <;> simp only [Shift.u32, bind_ok, pure_ok, ok_ok, ex_elim, ex_elim', ex_elim_r, throw, throwThe, MonadExceptOf.throw, reduceCtorEq, false_and, exists_false, and_false] at h ⊢ <;> bv_decide (timeout := 600)
 
 example : ∃ w, cls.logical_shreg 0#32 0#32 Shift.ASR 0#32 R17 0#32 R17 R17 = .ok w := ⟨_, rfl⟩
 
@@ -196,7 +197,7 @@ theorem system_sound (imm : BitVec 32)  (w : BitVec 32)
     w &&& 4294963231#32 = 3573751839#32 := by
   unfold cls.system at h
   cls_norm at h
-  bv_decide
+  bv_decide (timeout := 600)
 
 example : ∃ w, cls.system 5#32 = .ok w := ⟨_, rfl⟩
 
